@@ -11,9 +11,11 @@ import rxv.rules
 
 R = [
  # ---- genuine defects (DESIGN.md section 6)
- (r"^analyze_string::AnalyzeIter::compute_nesting_table\|", "F11", "F11: scan of the raw pattern text with unguarded pattern[i+1] / tos-1 / capture_tos-1; reached with literal (flag q) patterns"),
- (r"^analyze_string::RegexMatchHandler::(on_group_end|top)\|unwrap", "F10", "F10: group event stack relies on balanced, start-before-end events; violated by the zero-length-group event list"),
- (r"^analyze_string::AnalyzeIter::process_matching_substring\|unwrap:unwrap\(Vec::pop", "F10", "F10: see RegexMatchHandler"),
+ (r"^analyze_string::AnalyzeIter::compute_nesting_table\|", None, "runs only on the text of a pattern the parser accepted (gated on !is_literal, LITERAL-ANALYZE): parentheses and brackets are balanced, every '(' has a successor, no trailing backslash; stacks have pattern.len() slots"),
+ (r"^analyze_string::RegexMatchHandler::(on_group_end|top)\|unwrap", None, "the handler stack holds the outer pseudo group plus one entry per open group; events are balanced and each start precedes its end (EVENT-ORDER)"),
+ (r"^analyze_string::AnalyzeIter::process_matching_substring\|unwrap:unwrap\(Vec::pop", None, "after balanced events only the outer pseudo group remains on the stack (EVENT-ORDER)"),
+ (r"^<op_greedy_fixed::GreedyFixed as operation::OperationControl>::matches_iter\|OverflowNeg\(\(Ord::min\(a1\.len, 9223372036854775807\) as i64\)\)", None, "operand clamped to 0..=i64::MAX, whose negation is representable"),
+ (r"^<op_(repeat::GreedyRepeat|sequence::Sequence)Iterator as std::iter::Iterator>::next\|unwrap:unwrap\(last_mut\(a1\.iterators\)\)", None, "the iterator stack is non-empty: either the enclosing test just established it or an iterator was pushed immediately before"),
  (r"^<op_repeat::Repeat as operation::OperationControl>::matches_iter\|Overflow:Sub\(len\(a2\.search\), a3\)", "F16", "F16: position may exceed the input length when a precondition is probed at a fixed position"),
  (r"tainted|Overflow:Mul\(|Overflow:Add\(a3, mul\(|get_minimum_match_length\(|get_match_length\(.*Overflow|OverflowNeg\(\(a1\.len as i64\)\)", "F17", "F17: arithmetic on quantifier bounds / lengths derived from them is unchecked (e.g. (?:ab){9223372036854775808})"),
  # ---- audited (safe by an invariant confirmed by reading)
